@@ -139,7 +139,42 @@ class Check:
             os.unlink(tp)
             if os.path.exists(sp):
                 os.unlink(sp)
+        if self.cfg.get("enumerate_schedules"):
+            results += self.schedule_enumeration([r[0] for r in results if r[3].startswith("conc")])
         return results
+
+    def schedule_enumeration(self, traces):
+        """C11: for sampled concurrent episodes, force EVERY placement of the other thread's calls into the gaps
+        of the update (one call: every gap; two calls: every ordered pair of gaps), instead of one random schedule."""
+        limit = {"quick": 40, "thorough": 600}[self.tier]
+        variants, episodes = [], 0
+        for trace in traces:
+            for b in split_blocks(trace):
+                if episodes >= limit:
+                    break
+                ops = ops_of(b)
+                pos = [i for i, o in enumerate(ops) if o.startswith("O conc ")]
+                if not pos:
+                    continue
+                p = pos[0]
+                m = re.match(r"O conc s=(\S+) (u=\S+) b=(\S+)", ops[p])
+                if not m:
+                    continue
+                nb = 0 if m.group(3) == "~" else m.group(3).count(",") + 1
+                if nb == 0 or nb > 2:
+                    continue
+                episodes += 1
+                scheds = ["A" * i + "B" * 8 for i in range(10)] if nb == 1 else \
+                         ["A" * i + "B" + "A" * j + "B" * 8 for i in range(9) for j in range(9 - i)]
+                head = [l for l in b if l.startswith("L ")]
+                for k, sc in enumerate(scheds):
+                    variants += ["H %s-e%d %s" % (block_id(b), k, " ".join(b[0].split()[2:]))] + head + ops[:p] + \
+                                ["O conc s=%s %s b=%s" % (sc, m.group(2), m.group(3)), "E"]
+        if not variants:
+            return []
+        trace, out = execute_replay("\n".join(variants) + "\n", "enum_%s" % self.prop)
+        self.ev["schedule_enumeration"] = {"episodes": episodes, "schedules_forced": sum(1 for l in variants if l.startswith("H "))}
+        return [(trace, out, None, "conc-enumeration")]
 
     def crashed(self, journal, profile, seed, err):
         """The driver process died (a panic that cannot unwind aborts it): the journal holds the history."""
@@ -212,6 +247,8 @@ class Check:
             "problems": [{"kind": k, "detail": d[:600]} for k, d in self.problems],
         }
         cov.update(coverage_extra)
+        if "schedule_enumeration" in self.ev:
+            cov["schedule_enumeration"] = self.ev["schedule_enumeration"]
         evidence = {
             "property_id": self.prop, "tier": self.tier, "seed": self.seed, "level": self.cfg.get("level", "proof"),
             "coverage": cov, "assumptions": self.cfg.get("assumptions", []), "wall_s": round(wall, 2),
